@@ -126,8 +126,11 @@ def formatter_level(check, P):
     f_com = P.func("DefaultFormatter.comment")
     opens, ends = styles_from_source(P)
     styles = [(o, True) for o in opens] + [(";", False), ("#", False), ("//", False), ("%", False)]
+    # the setter accepts and trims surrounding whitespace: the padded spellings are the same styles
+    styles += [(f"{o} ", True) for o in opens] + [(f" {o}", True) for o in opens[:2]] + [("; ", False)]
     n = 0
     for sym, enclosed in styles:
+        base = sym.strip()
         text = Unk("arg.text", "str")
 
         def entry(I, _):
@@ -164,7 +167,7 @@ def formatter_level(check, P):
             i = parts.index(t)
             prefix = "".join(p.text for p in parts[:i] if isinstance(p, Lit))
             suffix = "".join(p.text for p in parts[i + 1:] if isinstance(p, Lit))
-            if not prefix.startswith(sym):
+            if not prefix.startswith(base):
                 check.violation("R1", f"style:{sym}:opening", f"comment() for style {sym!r} does not start with the comment symbols: {prefix!r}", d)
                 continue
             if not MUST_REMOVE <= t.removed:
@@ -173,9 +176,9 @@ def formatter_level(check, P):
                                 "a line break in a comment starts a new executable line", d)
                 continue
             if enclosed:
-                closing = CLOSERS.get(sym)
+                closing = CLOSERS.get(base)
                 # table agreement: the closing symbols of the source's table are the bracket partner
-                idx = opens.index(sym)
+                idx = opens.index(base)
                 if closing is not None and ends[idx] != closing:
                     check.violation("R1", f"style:{sym}:table", f"COMMENT_ENDINGS pairs {sym!r} with {ends[idx]!r}, expected {closing!r}", d)
                     continue
